@@ -456,6 +456,8 @@ fn sieve_block(s: &SieveQS, st: &mut Sieve, roots: [&[u32]; 2], backward: bool) 
             "INTERNAL ERROR: failed relation check {:?}",
             &rel
         );
+        #[cfg(yamaquasi_verif)]
+        crate::verif_sched::yield_point(12);
         s.rels.write().unwrap().add(rel, pq);
     }
 }
